@@ -311,7 +311,7 @@ def gen_history(rng, nops=30, comp=None, out=None, nbps=None, rich=False, rot=Tr
     bps = [gen_bp(rng, pools, rich=rich, maxitems=(rng.choice(sizes) if sizes else None),
                   hints=(gen_hints(rng, hints_mode) if hints_mode else None)) for _ in range(nbps)]
     pre = {"major": nat(rng.choice([1, 1, 1, 0, 255])) if rich else nat(1), "minor": nat(rng.choice([0, 0, 1, 255])) if rich else nat(0),
-           "bps": bps}
+           "bps": list(bps)}
     pv = rng.choice([None, 0, 1, 2, 255]) if rich else 1
     if pv is not None:
         pre["private"] = nat(pv)
